@@ -17,7 +17,27 @@ type c19WireCase struct {
 	Prefix      []string        `json:"prefix"`
 	Request     string          `json:"request"`
 	Corruptions []string        `json:"corruptions"`
+	Refused     []string        `json:"refusedRequests,omitempty"`
 }
+
+// refusedRequests are requests other than transact that the server has to refuse (the
+// monitoring peer has the monitor "watch" in place): the transactions sent afterwards must
+// be served as if nothing had happened.
+var refusedRequests = []struct {
+	method string
+	params string
+}{
+	{"monitor", `["$DB","watch",{"$T":{}}]`}, {"monitor_cond", `["$DB","watch",{"$T":{}}]`}, {"monitor_cond_since", `["$DB","watch",{"$T":{}},"00000000-0000-0000-0000-000000000000"]`},
+	{"monitor", `["nosuchdb","other",{"$T":{}}]`}, {"monitor_cond", `["$DB","other",{"nosuchtable":{}}]`}, {"monitor_cancel", `["nosuch"]`},
+	{"monitor", `["$DB","other",{"$T":{"columns":["nosuch"]}}]`},
+	{"get_schema", `["nosuchdb"]`}, {"transact", `["nosuchdb",{"op":"select","table":"$T","where":[]}]`}, {"transact", `[]`}, {"transact", `[1]`}, {"transact", `["$DB",1]`},
+	{"nosuchmethod", `[]`}, {"lock", `["x"]`}, {"steal", `["x"]`}, {"unlock", `["x"]`},
+}
+
+// Not in the list (outside the statement of C19, which is about transact requests and the
+// decoders): monitor, monitor_cond, monitor_cond_since, monitor_cancel and get_schema
+// requests with fewer parameters than RFC 7047 prescribes make the server index its
+// parameter list out of range (observation in DESIGN.md).
 
 // TestC19Wire: the requests of TestC19Txn are sent as raw JSON-RPC transact calls to a
 // listening server that also has a monitoring peer, each followed by an echo and a
@@ -82,6 +102,28 @@ func TestC19Wire(t *testing.T) {
 			if st, err = srv.Snapshot(); err != nil {
 				t.Fatalf("snapshot: %v", err)
 			}
+		}
+		// requests the server refuses (or answers), from the monitoring connection or the other one
+		for i, n := 0, rapid.IntRange(0, 2).Draw(t, "nrefused"); i < n; i++ {
+			rr := rapid.SampledFrom(refusedRequests).Draw(t, "refused")
+			params := strings.ReplaceAll(strings.ReplaceAll(rr.params, "$DB", s.Name), "$T", s.Tables[0].Name)
+			from := peer
+			fromName := "transacting connection"
+			if rapid.Bool().Draw(t, "fromwatcher") {
+				from, fromName = watcher, "monitoring connection"
+			}
+			kase.Refused = append(kase.Refused, fmt.Sprintf("%s %s from the %s", rr.method, params, fromName))
+			kit.StartMemGuard(c19MemoryGuard)
+			done := kit.InFlight("C19", "panic.server-process", kase)
+			var reply json.RawMessage
+			_ = from.Call(rr.method, json.RawMessage(params), &reply)
+			var echoed []interface{}
+			echoErr := from.Call("echo", []interface{}{"still-there"}, &echoed)
+			done()
+			if echoErr != nil || len(echoed) != 1 {
+				fail("serving.echo-after", "after the request %s %s an echo on the same connection fails: %v %v", rr.method, params, echoed, echoErr)
+			}
+			kit.Label("C19", "wire:refused-request:"+rr.method)
 		}
 		g2 := kit.NewTxnGen(s, cfgC19)
 		g2.Next = g.Next + 100
@@ -170,6 +212,24 @@ func TestC19Wire(t *testing.T) {
 				lbl = "wire:accepted"
 			}
 			kit.Record("C19", fmt.Sprintf("wire:%s:%s", strings.Join(desc, ","), lbl), true, func() interface{} { return kase }, lbl)
+		}
+		// a valid transaction that changes something is committed and notified as usual
+		{
+			if st, err = srv.Snapshot(); err != nil {
+				t.Fatalf("snapshot: %v", err)
+			}
+			g.Next = g2.Next + 100
+			text := []byte(fmt.Sprintf(`[{"op":"insert","table":%q,"row":{}}]`, s.Tables[0].Name))
+			if rapid.Bool().Draw(t, "generatedlast") {
+				text = kit.OpsJSON(s, g.GenTxn(t, st))
+			}
+			kase.Request, kase.Corruptions = string(text), []string{"none: closing valid transaction"}
+			done := kit.InFlight("C19", "panic.server-process", kase)
+			_, err := send(text)
+			done()
+			if err != nil {
+				fail("serving.transact-after", "the closing valid transaction %s is answered with an RPC error: %v", text, err)
+			}
 		}
 		// the monitoring peer is still served
 		var echoed []interface{}
